@@ -354,7 +354,7 @@ def _lock_conformance(v, lsc):
     orig = vf.save_replay
     vf.save_replay = lambda pid, n, *a: orig(pid, n + 100, *a)
     try:
-        vf.conformance(v, lsc, lock_driver, LTRACE[0], LTRACE[1], lock_sig_of, lock_nontrivial, tlc_timeout=1500)
+        vf.conformance(v, lsc, lock_driver, LTRACE[0], LTRACE[1], lock_sig_of, lock_nontrivial, tlc_timeout=1500, chunk=300)
     finally:
         vf.save_replay = orig
 
